@@ -39,7 +39,7 @@ def history(rng):
         # the evaluation stops with NO call frame in flight: nested blocks written directly at the toplevel
         failing = "if True { let secret = 20 for nn in [1, 2] { let top0 = 99 let inblk = %s } }" % stop
     elif shape == 5:
-        failing = "let cnt = 0 while cnt < 3 { cnt += 1 match Some(cnt) { Some(mm) => { let deep = [mm, %s] } None => { 0 } } }" % stop
+        failing = "for cnt in [1, 2, 3] { match Some(cnt) { Some(mm) => { let deep = [mm, %s] } None => { 0 } } }" % stop
     elif shape == 6:
         failing = "let whole = [1, (2, %s)]" % stop
     elif shape == 0:
@@ -94,7 +94,7 @@ def run(ctx):
                               {"input": r["src"], "observed": outs[-1]})
     # (b) real sessions vs fresh sessions
     for defs, lets, failing in (hist if ctx.thorough else hist[:18]):
-        probes = [":resume"] + LOCALS + ["blk", "inloop", "res", "t2", "w", "secret", "nn", "inblk", "mm", "deep", "whole"] + ["top%d" % i for i in range(len(lets))] + \
+        probes = [":resume"] + LOCALS + ["blk", "inloop", "res", "t2", "w", "secret", "nn", "inblk", "mm", "deep", "whole", "cnt"] + ["top%d" % i for i in range(len(lets))] + \
                  ["inner", "1 + 1", ":locals", ":stack", ":fstmts", ":fvalues"]
         a_reqs = [defs] + lets + [failing, ":abort"] + probes
         b_reqs = [defs.replace("STOP", "0")] + lets + probes
